@@ -26,6 +26,10 @@ class Slow:
             time.sleep(0.01)
         time.sleep(0.3)
         open(os.path.join(d, f'done{self.n}'), 'w').close()
+        if self.n == 2 and os.path.exists(os.path.join(d, 'fail2')):
+            # one of the tasks that were executing when the interrupt arrived fails while the run is drained
+            # (the Lab has continue_on_failure=False): the outcome must still be KeyboardInterrupt
+            raise RuntimeError('fails while the interrupted run is being drained')
         return self.n * 10
 
 
